@@ -628,9 +628,32 @@ type world struct {
 	// still pending while a synchronisation was in flight.
 	cleanupRaced bool
 
+	// overlap is set in the sub-batch in which two tasks refresh the
+	// database (the periodic worker and the debug API do in production): a
+	// response is then entered into the history as soon as the next request
+	// reaches the storage, or when the Refresh call that asked for it returns.
+	overlap bool
+
 	lastStored *version // version written by the last store that completed
 	storing    *version // version a store in progress is writing
 	images     int
+}
+
+// commitPending enters the version of the last storage response into the
+// history.
+func (w *world) commitPending(end int) {
+	if w.pending == nil {
+		return
+	}
+
+	w.cur().until = end
+	w.vers = append(w.vers, w.pending)
+	if w.pending.full {
+		w.s.Probe("full-sync")
+	} else {
+		w.s.Probe("incremental-sync")
+	}
+	w.pending = nil
 }
 
 func (w *world) stamp() int {
@@ -658,6 +681,12 @@ func (st *storage) Profiles(
 	s := w.s
 	t := s.T
 	b := w.be
+
+	if w.overlap {
+		// The database serialises its refreshes: the previous response has
+		// been applied by now.
+		w.commitPending(w.stamp())
+	}
 
 	// The request is in flight: the backend may change and lookups may run.
 	s.Yield("storage-request")
@@ -989,7 +1018,8 @@ func run(s *kernel.Sim, _, cfg string) {
 	cachePath := filepath.Join(cacheDir, "cache.pb")
 	w.db = w.newDB(cachePath, st)
 
-	crash := cfg != "nocrash" && cfg != "toggle"
+	w.overlap = cfg == "overlap"
+	crash := cfg != "nocrash" && cfg != "toggle" && !w.overlap
 	s.DeferBackground = true
 	s.Invariant = func() {
 		if !crash || w.storing == nil {
@@ -1024,6 +1054,13 @@ func run(s *kernel.Sim, _, cfg string) {
 			s.Logf("syncer: refresh#%d begins@%d", i, w.refreshStart)
 			rerr := w.db.Refresh(context.Background())
 			end := w.stamp()
+			if w.overlap {
+				w.commitPending(end)
+				w.storing = nil
+				s.Logf("syncer: refresh#%d ends@%d err=%v", i, end, rerr)
+
+				continue
+			}
 			after, _ := os.ReadFile(cachePath)
 			stored := string(before) != string(after)
 			if w.pending != nil {
@@ -1051,6 +1088,23 @@ func run(s *kernel.Sim, _, cfg string) {
 			}
 		}
 	})
+
+	if w.overlap {
+		// A second caller of Refresh that changes nothing at the backend.
+		n2 := t.Range(1, 4, "second-refresher-calls")
+		s.Go("refresher2", func() {
+			for i := 0; i < n2; i++ {
+				time.Sleep(kernel.Pick(t, []time.Duration{0, time.Second, 61 * time.Second, 10*time.Minute + time.Second}, "refresh2-gap"))
+				s.Yield("before-refresh2")
+				begin := w.stamp()
+				rerr := w.db.Refresh(context.Background())
+				end := w.stamp()
+				w.commitPending(end)
+				s.Logf("refresher2: refresh [%d,%d] err=%v", begin, end, rerr)
+				s.Probe("second-refresher-call")
+			}
+		})
+	}
 
 	nLook := t.Range(1, 3, "lookup-tasks")
 	for li := 0; li < nLook; li++ {
